@@ -6,6 +6,7 @@ import Setec.Driver.CliDrv
 import Setec.Driver.StoreDrv
 import Setec.Driver.LookupDrv
 import Setec.Driver.BackupDrv
+import Setec.Driver.FieldsDrv
 import Setec.Generated.Facts
 open Setec.Driver
 
@@ -68,6 +69,11 @@ def main (args : List String) : IO UInt32 := do
     let st ← loop stdin backupLine {} 1
     printCover st.cover
     IO.println s!"SUMMARY family=backup steps={st.cases} clause_evals={st.cases * 9} propfail={st.fails} diverge={st.diverges}"
+    return 0
+  | ["fields"] =>
+    let st ← loop stdin fieldsLine {} 1
+    printCover st.cover
+    IO.println s!"SUMMARY family=fields steps={st.cases} clause_evals={st.cases * 9} propfail={st.fails} diverge={st.diverges}"
     return 0
   | ["fs"] =>
     let st ← loop stdin fsLine {} 1
